@@ -114,6 +114,26 @@ def check_list_removal(rep, rule, m, fname, must_free=True, _depth=0):
                 rule.fail()
 
     TR.run_traces(m, f, region)
+    # the list that is unlinked from is the stored one, not a local copy of its head
+    from .. import inv as _inv2
+    from ..vals import FuncCtx as _FC2
+    from ..astutil import kids as _kids2
+    cx2 = _FC2(m, f)
+    for c in walk(f.body):
+        if c["kind"] == "CallExpr" and callee_ref(c) == "cmi_slist_pop" and len(_kids2(c)) > 1:
+            root = _inv2.storage_root(cx2, f, _kids2(c)[1])
+            if root is None:
+                continue
+            decl = [d for d in walk(f.body) if d["kind"] == "VarDecl" and d.get("name") == root]
+            if decl and "*" not in (decl[0].get("type") or "") and (decl[0].get("type") or "").replace("const ", "").startswith("struct ") \
+                    and _kids2(decl[0]) and decl[0].get("storageClass") != "static":
+                ini = cx2.canon(_kids2(decl[0])[0])
+                rule.instance("%s: unlinks from the list headed in local '%s' (a copy of %s)" % (fname, root, ini[:60]))
+                rep.finding(rule, fname, "list-remove:copy", "%s unlinks the node from a list whose head lives in the local '%s', a copy "
+                            "of %s: when the node is the first one only the copy is updated, the stored list keeps pointing at "
+                            "a tag that has been returned to its pool" % (fname, root, ini[:80]), where=m.rel(c.get("file") and
+                            "%s:%s" % (c.get("file"), c.get("line")) or f.where))
+                rule.fail()
     if must_free and stats["frees"] == 0:
         # the unlink-and-recycle step may live in a helper this function calls: judge the helper
         helpers = []
